@@ -163,7 +163,9 @@ Definition factorPrefixSuffix (fx : bool) (alt : sx) : option string :=
       if Nat.leb (String.length tail) 4 && Nat.eqb (rune_count tail) 1 then Some (x ++ tail ++ "?")
       else
         let head := trim_suffix y x in
-        if Nat.leb (String.length head) 4 && Nat.eqb (rune_count head) 1 then Some (head ++ "?" ++ x)
+        (* since the fix "factor a common suffix only when the longer alternative comes first": longerFirst && ... *)
+        if (negb fx || Nat.ltb (String.length y0) (String.length x0)) &&
+           (Nat.leb (String.length head) 4 && Nat.eqb (rune_count head) 1) then Some (head ++ "?" ++ x)
         else None
   | _ => None
   end.
